@@ -28,7 +28,8 @@ RULE = ('The namespace object is registered with a recorder whose methods '
         'objects registered for the catch-all namespace, and objects with a '
         'history (an event dispatched to them, an earlier helper call with an '
         'explicit namespace, a registration refused by a server / client of '
-        'the other kind) before the judged call. '
+        'the other kind, an earlier registration with another server / '
+        'client of the same kind) before the judged call. '
         'Oracle: the same-named method is called exactly once; every '
         'argument the caller gave arrives unchanged at the parameter of the '
         'same name; an omitted namespace arrives as the registration '
@@ -126,6 +127,10 @@ def strategy(tier):
         'history': st.lists(st.sampled_from(['event', 'helper_ns',
                                              'bad_register']),
                             max_size=2),
+        # the object was registered with another server / client of the same
+        # kind before (say, the application built a new server object): it
+        # works for the one it was registered with last
+        'earlier_owner': st.booleans(),
         # the underlying method fails: the helper passes the exception on
         # and does not try anything else
         'target_raises': st.sampled_from([None, None, None, 'TypeError',
@@ -143,6 +148,7 @@ def _norm(d, cl):
     c['vals'] = vals
     c['reg'] = d['reg']
     c['history'] = d.get('history', [])
+    c['earlier_owner'] = d.get('earlier_owner', False)
     c['target_raises'] = d.get('target_raises')
     return c
 
@@ -195,6 +201,10 @@ def check_case(case):
                 evlog.append(a)
     ns = NS(reg) if reg is not None else NS()
     reg_eff = reg or '/'
+    if case.get('earlier_owner'):
+        kw_e = {'Server': {'async_mode': 'threading'},
+                'AsyncServer': {'async_mode': 'asgi'}}.get(target_name, {})
+        target(**kw_e).register_namespace(ns)
     if target_name.endswith('Server'):
         ns._set_server(recorder)
     else:
@@ -329,6 +339,7 @@ def check_case(case):
             'ngiven': len(given), 'explicit_falsy': falsy,
             'history': len(case.get('history', [])),
             'reg_star': reg == '*',
+            'earlier_owner': bool(case.get('earlier_owner')),
             'nontrivial': len(given) >= 2 or falsy or any(
                 v is None for p, v in vals.items() if p != 'namespace')}
 
